@@ -360,6 +360,47 @@ end subroutine Legacy
 """,
 })
 
+VALID.update({
+    # expressions of every level, constructors, sections and substrings, BOZ / complex / logical constants, defined operators,
+    # IMPLICIT, NAMELIST, DATA and I/O implied DO, keyword and alternate-return arguments, FORMAT
+    "exprs": """module Expr_Mod
+  use Ops_Mod, only: operator(.cross.), assignment(=), Wide => Narrow
+  implicit real(kind=8) (a-h, o-z), integer (i-n)
+  type Vec
+    real :: c(3)
+    character(len=8) :: tag
+  end type Vec
+  integer, parameter :: Mask = b'1010', Hx = z'FF', Oc = o'17'
+  complex :: Zc = (1.0, -2.5e-3)
+  logical :: Flag = .true.
+  character(len=*), parameter :: Greet = 'say "hi"'
+  character*(10) Old_Style
+  real :: Grid(10, 10), Row(10)
+  integer :: Idx(3) = (/ 3, 1, 2 /)
+  namelist /Setup/ Grid, Flag
+  data (Row(i), i = 1, 10, 2) /5 * 0.0/
+contains
+  subroutine Work(v, w, *)
+    type(Vec), intent(inout) :: v
+    type(Vec) :: w
+    v = Vec((/ (real(i), i = 1, 3) /), tag='abc')
+    w%c = v%c(Idx) + Grid(1:3, 2) * 2.0 ** (-1)
+    w%tag(2:4) = Greet(1:3) // 'x'
+    Row(:) = Grid(:, 1)
+    Row(2:10:2) = -Row(1:9:2)
+    Flag = .not. Flag .and. (Row(1) >= 0.0 .or. Row(2) /= 1.0) .eqv. .false.
+    w = v .cross. w
+    print '(3f8.2)', (Row(i), i = 1, 3)
+    write (*, fmt=100) size(Row, dim=1), kind(1.0d0), Zc
+100 format (i4, 1x, i2, 2(f6.2, ','))
+    call Helper(Row, n=3, *200)
+    if (Flag) return 1
+200 continue
+  end subroutine Work
+end module Expr_Mod
+""",
+})
+
 VALID_2008 = {
     "block": """program Blk
   integer :: i
@@ -399,6 +440,31 @@ end submodule Deep
     end block
 10 a(i) = a(i) + 1
 end subroutine Scale
+""",
+    "coarray": """module Co_Mod
+  real, codimension[*] :: Total
+  integer, codimension[2, *] :: Counts(4)
+  real, allocatable, codimension[:] :: Work(:)
+  real, contiguous, pointer :: Ptr(:)
+  type Cell
+    integer, allocatable, codimension[:] :: q
+  end type Cell
+contains
+  subroutine Gather(n)
+    integer, intent(in) :: n
+    integer :: i, u
+    allocate (Work(n), mold=Ptr)
+    do concurrent (i = 1:n)
+      Work(i) = real(i)
+    end do
+    if (this_image() == 1) then
+      Total = sum(Work)
+      open (newunit=u, file='out.txt')
+      close (u)
+    end if
+    if (n < 0) error stop 'negative'
+  end subroutine Gather
+end module Co_Mod
 """,
     "submodule": """submodule (Parent) Child
 contains
